@@ -285,6 +285,19 @@ theorem pool_at_rest_main {cfg : Cfg} (hn : 1 ≤ cfg.nworkers) (hj : JobsOk cfg
 
 
 
+/-- **Deadlock in the sense of the transition relation is a rest state in the sense of `enabled`**: if no thread
+    has any transition at all, then no thread is enabled, so the four theorems above apply.  (Conversely a thread
+    that is not enabled can only move by a spurious wake-up.) -/
+theorem pool_stuck_is_at_rest {cfg : Cfg} {s : State} (h : Reachable cfg s) (hstuck : ∀ t c, step cfg s t c = none) :
+    AtRest cfg s := by
+  intro t
+  cases he : enabled cfg s t with
+  | false => rfl
+  | true =>
+    obtain ⟨o, ho⟩ := enabled_step h 0 he
+    rw [hstuck t 0] at ho
+    simp at ho
+
 /-- **`idle()` counts the workers waiting for jobs**: in every reachable state `idle_` equals the number of
     workers between `++idle_` and `--idle_` (evaluating the wait predicate, about to wait, waiting, or just woken). -/
 theorem pool_idle_count {cfg : Cfg} {s : State} (h : Reachable cfg s) : s.idle = s.thr.countP inIdle :=
